@@ -313,10 +313,13 @@ theorem readBlocks_cut_block (c : Check) (fs : List Filter) (hfs : FiltersOk fs)
 theorem readBlocks_cut_tail (c : Check) (recs : List (Nat × Nat)) (hn : recs.length < 2 ^ 63)
     (hrecs : ∀ x ∈ recs, RecOk x) (n : Nat) (acc : List Nat) (blks : List Block) (total fuel cap j : Nat)
     (hlen : recs.length = blks.length) (hj : j < (indexBytes recs ++ footerBytes c n).length) :
-    readBlocks false total (fuel + 1) c ((indexBytes recs ++ footerBytes c n).take j) acc blks cap = .err .eof := by
+    (readBlocks false total (fuel + 1) c ((indexBytes recs ++ footerBytes c n).take j) acc blks cap).notOk := by
   rw [List.length_append, footerBytes_length] at hj
   cases j with
-  | zero => rfl
+  | zero =>
+    have : readBlocks false total (fuel + 1) c ((indexBytes recs ++ footerBytes c n).take 0) acc blks cap
+        = .err .eof := rfl
+    rw [this]; trivial
   | succ j =>
     have hil : (indexBytes recs).length = (indexBytes recs).tail.length + 1 := by
       rw [indexBytes_cons]; simp
@@ -324,9 +327,11 @@ theorem readBlocks_cut_tail (c : Check) (recs : List (Nat × Nat)) (hn : recs.le
     simp only []
     by_cases hji : j < (indexBytes recs).tail.length
     · rw [take_append_lt _ _ _ hji, parseIndex_trunc recs hn hrecs j hji]
+      trivial
     · rw [take_append_ge _ _ _ (by omega), parseIndex_ok recs hn hrecs]
       simp only [hlen, ne_eq, not_true_eq_false, if_false]
       rw [parseFooter_trunc c n _ (by omega)]
+      split <;> trivial
 
 /-- the loop on blocks + index + footer cut anywhere inside -/
 theorem readBlocks_cut (c : Check) (fs : List Filter) (hfs : FiltersOk fs) (total cap n : Nat)
@@ -344,8 +349,7 @@ theorem readBlocks_cut (c : Check) (fs : List Filter) (hfs : FiltersOk fs) (tota
     intro _ acc blks pre fuel j hlen hj _ _ _ hf
     obtain ⟨f, rfl⟩ : ∃ f, fuel = f + 1 := ⟨fuel - 1, by omega⟩
     simp only [blocksBytes, List.map_nil, List.flatten_nil, List.nil_append] at hj ⊢
-    rw [readBlocks_cut_tail c recs hn hrecs n acc blks total f cap j (by simpa using hlen) hj]
-    trivial
+    exact readBlocks_cut_tail c recs hn hrecs n acc blks total f cap j (by simpa using hlen) hj
   | cons b blocks ih =>
     intro hb acc blks pre fuel j hlen hj htot hpre hcap hf
     obtain ⟨f, rfl⟩ : ∃ f, fuel = f + 1 := ⟨fuel - 1, by omega⟩
@@ -392,12 +396,12 @@ theorem xz_trunc (s : Strm) (hs : s.OkT) (cap : Nat) (hcap : s.data.length ≤ c
   · rw [take_append_ge _ _ _ (by rw [streamHeaderBytes_length]; omega), streamHeaderBytes_length,
       parseStreamHeader_ok]
     simp only []
-    obtain ⟨r1, r2⟩ := recsOf_ok s.c s.fs s.blocks hsz
+    obtain ⟨r1, r2⟩ := recsOf_ok s.c s.fs s.blocks hsz.1
     have hlen : (streamHeaderBytes s.c ++ (streamBody s.c s.fs s.blocks).take (k - 12)).length = 12 + (k - 12) := by
       rw [List.length_append, streamHeaderBytes_length, List.length_take]; omega
     rw [hlen]
     unfold streamBody at hk ⊢
-    exact readBlocks_cut s.c s.fs hfs _ cap _ (recsOf s.c s.fs s.blocks) (by rw [r1]; exact hsz.1) r2 s.blocks
+    exact readBlocks_cut s.c s.fs hfs _ cap _ (recsOf s.c s.fs s.blocks) (by rw [r1]; exact hsz.1.1) r2 s.blocks
       (fun b hb' => ⟨hb b hb', ht b hb'⟩) [] [] 12 _ (k - 12) (by simp [r1]) (by omega) rfl (by decide)
       (by simpa [Strm.data] using hcap) (by omega)
 
